@@ -9,6 +9,7 @@ Decided statically (E1 layout types + structural pairing rules):
   index-by-name  `condition` indexes with a tuple built by iterating the operand's own domain
   operands       every binary method uses the values of both operands on the non-scalar path
   result-domain  project/transpose answer in the requested order; binary ops answer over the merged domain
+  aggregation-mode  project reduces with the reducer the caller asked for (read once per mode, tests on the mode decided)
   out-contract   every `x.exp/log/copy(out=y)` call site passes the receiver itself
   axes-primitive Domain.axes is a by-name lookup into the domain's own attribute tuple
   none-test      an `attrs=None` default meaning "aggregate everything" is tested against None, not by truthiness
@@ -140,6 +141,7 @@ def run(ctx):
 
     check_out_callsites(ctx)
     check_out_writes(ctx, methods)
+    check_aggregation_mode(ctx, methods['project'])
     check_axes_primitive(ctx)
     check_clique_vector(ctx)
     from .C15 import none_tests
@@ -173,6 +175,107 @@ def check_init(ctx, fi, ty):
     ok = v.kind == 'arr' and v.a == ('param', dom_src[1])
     ctx.ob('construct', fi, s, ok, 'stored values laid out by %s, stored domain is `%s`'
            % (show(v.a) if v.kind == 'arr' else 'an untyped expression', dom_src[1]))
+
+
+def check_aggregation_mode(ctx, fi):
+    """project(attrs, agg): the attributes that are dropped are reduced with the reducer the caller asked for - self.sum for 'sum',
+    self.logsumexp for 'logsumexp'.  The function is read once per mode with the tests on `agg` decided; the reducers reachable in that
+    reading must be exactly the requested one (a mode that is not forwarded to a helper falls back to the helper's default)."""
+    if len(fi.params) < 3:
+        raise AnalysisError('Factor.project: aggregation parameter not found')
+    agg = fi.params[2]
+    REDUCERS = ('sum', 'logsumexp', 'max', 'min', 'mean', 'prod')
+    # locals that hold the mode or a constant (parameters of helpers the front end inlined)
+    singles = {}
+    for st in ast.walk(fi.node):
+        if isinstance(st, ast.Assign) and len(st.targets) == 1 and isinstance(st.targets[0], ast.Name):
+            singles.setdefault(st.targets[0].id, []).append(st.value)
+    alias = {k for k, v in singles.items() if len(v) == 1 and isinstance(v[0], ast.Name) and v[0].id == agg}
+    consts = {k: v[0].value for k, v in singles.items() if len(v) == 1 and isinstance(v[0], ast.Constant) and isinstance(v[0].value, str)}
+
+    def decide(test, mode):
+        t = test
+        if isinstance(t, ast.Compare) and len(t.ops) == 1 and isinstance(t.left, ast.Constant) and isinstance(t.left.value, str) \
+                and not any(isinstance(n, ast.Name) for n in ast.walk(t)):
+            return decide(ast.Compare(left=ast.Name(id=agg, ctx=ast.Load()), ops=t.ops, comparators=t.comparators), t.left.value)
+        if isinstance(t, ast.Compare) and len(t.ops) == 1 and isinstance(t.left, ast.Name) and t.left.id in consts:
+            return decide(ast.Compare(left=ast.Name(id=agg, ctx=ast.Load()), ops=t.ops, comparators=t.comparators), consts[t.left.id])
+        if isinstance(t, ast.Compare) and len(t.ops) == 1 and isinstance(t.left, ast.Name) and t.left.id in alias:
+            return decide(ast.Compare(left=ast.Name(id=agg, ctx=ast.Load()), ops=t.ops, comparators=t.comparators), mode)
+        if isinstance(t, ast.UnaryOp) and isinstance(t.op, ast.Not):
+            r = decide(t.operand, mode)
+            return None if r is None else not r
+        if isinstance(t, ast.Compare) and len(t.ops) == 1:
+            l, r = t.left, t.comparators[0]
+            if isinstance(r, ast.Name) and r.id == agg and isinstance(l, ast.Constant):
+                l, r = r, l
+            if isinstance(l, ast.Name) and l.id == agg:
+                if isinstance(r, ast.Constant) and isinstance(t.ops[0], (ast.Eq, ast.NotEq, ast.Is, ast.IsNot)):
+                    return (mode == r.value) == isinstance(t.ops[0], (ast.Eq, ast.Is))
+                if isinstance(r, (ast.List, ast.Tuple, ast.Set)) and all(isinstance(e, ast.Constant) for e in r.elts) \
+                        and isinstance(t.ops[0], (ast.In, ast.NotIn)):
+                    return (mode in [e.value for e in r.elts]) == isinstance(t.ops[0], ast.In)
+        if any(isinstance(n, ast.Name) and n.id == agg for n in ast.walk(t)):
+            return None
+        return 'free'
+
+    for mode in ('sum', 'logsumexp'):
+        found = []
+
+        def reach(stmts):
+            for st in stmts:
+                if isinstance(st, ast.Assert):
+                    continue
+                if isinstance(st, ast.If):
+                    d = decide(st.test, mode)
+                    if d is None:
+                        raise AnalysisError('Factor.project: test `%s` on the aggregation mode is in no recognised form' % U(st.test))
+                    if d == 'free':
+                        scan(st.test)
+                        reach(st.body)
+                        reach(st.orelse)
+                    else:
+                        reach(st.body if d else st.orelse)
+                    continue
+                if isinstance(st, (ast.For, ast.While, ast.With, ast.Try)):
+                    for f in ('body', 'orelse', 'finalbody'):
+                        reach(getattr(st, f, []) or [])
+                    continue
+                scan(st)
+
+        def scan(node):
+            for n in ast.walk(node):
+                if isinstance(n, ast.IfExp):
+                    d = decide(n.test, mode)
+                    if d is None:
+                        raise AnalysisError('Factor.project: test `%s` on the aggregation mode is in no recognised form' % U(n.test))
+                    if d != 'free':
+                        # only the selected arm is evaluated
+                        dead = n.orelse if d else n.body
+                        for x in ast.walk(dead):
+                            x._dead_for = mode
+                if getattr(n, '_dead_for', None) == mode:
+                    continue
+                if isinstance(n, ast.Call):
+                    f = n.func
+                    if isinstance(f, ast.Attribute) and f.attr in REDUCERS and (U(f.value) == 'self' or U(f.value).endswith('.values')
+                                                                               or U(f.value) in ('np', 'numpy')):
+                        found.append((n, f.attr))
+                    elif U(f) in ('logsumexp', 'scipy.special.logsumexp', 'special.logsumexp'):
+                        found.append((n, 'logsumexp'))
+                    elif isinstance(f, ast.Name) and f.id == 'getattr' and len(n.args) >= 2 and U(n.args[0]) == 'self' and U(n.args[1]) == agg:
+                        found.append((n, mode))
+                    elif isinstance(f, ast.Subscript) and isinstance(f.value, ast.Dict) and U(f.slice) == agg:
+                        for k_, v_ in zip(f.value.keys, f.value.values):
+                            if isinstance(k_, ast.Constant) and k_.value == mode and isinstance(v_, ast.Attribute):
+                                found.append((n, v_.attr))
+        reach(fi.body)
+        used = sorted({r for _, r in found})
+        if not used:
+            raise AnalysisError('Factor.project: no reducer found for agg=%r' % mode)
+        ctx.ob('aggregation-mode', fi, found[0][0], used == [mode],
+               'project(.., agg=%r) must reduce the dropped attributes with self.%s; the reducers reached in that mode: %s'
+               % (mode, mode, used), construct='reducer for agg=%r' % mode)
 
 
 def check_out_writes(ctx, methods):
